@@ -278,13 +278,55 @@ func (in *Interp) interval(b *boundsInfo, t *Term) ival {
 }
 
 func (in *Interp) interval1(b *boundsInfo, t *Term) ival {
-	if t.W != 64 {
-		return ival{ok: false}
-	}
 	bad := ival{ok: false}
+	if t.W == 0 {
+		return bad
+	}
+	if t.W != 64 {
+		// narrower values are read as signed numbers; they are integer-safe when they are constants or
+		// value-preserving width changes of integer-safe 64-bit terms
+		half := int64(1) << uint(t.W-1)
+		switch t.Op {
+		case OpConst:
+			return ival{t.SVal(), t.SVal(), true}
+		case OpExtract:
+			if t.B != 0 {
+				return bad
+			}
+			x := in.interval(b, t.Args[0])
+			if !x.ok || x.lo < -half || x.hi >= half {
+				return bad
+			}
+			return x
+		case OpIte:
+			if !in.intSafe(b, t.Args[0]) {
+				return bad
+			}
+			x, y := in.interval(b, t.Args[1]), in.interval(b, t.Args[2])
+			if !x.ok || !y.ok {
+				return bad
+			}
+			if y.lo < x.lo {
+				x.lo = y.lo
+			}
+			if y.hi > x.hi {
+				x.hi = y.hi
+			}
+			return x
+		}
+		return bad
+	}
 	switch t.Op {
 	case OpConst:
 		return ival{t.SVal(), t.SVal(), true}
+	case OpSExt:
+		return in.interval(b, t.Args[0])
+	case OpZExt:
+		x := in.interval(b, t.Args[0])
+		if !x.ok || x.lo < 0 {
+			return bad
+		}
+		return x
 	case OpVar:
 		lo, hi := int64(math.MinInt64), int64(math.MaxInt64)
 		if v, ok := b.lo[t.ID]; ok {
@@ -362,11 +404,8 @@ func small(x ival) bool { return x.lo >= -safeLim && x.hi <= safeLim }
 
 // intSafe: can the Bool/BV term be sent in integer mode?
 func (in *Interp) intSafe(b *boundsInfo, t *Term) bool {
-	if t.W == 64 {
-		return in.interval(b, t).ok
-	}
 	if t.W != 0 {
-		return false
+		return in.interval(b, t).ok
 	}
 	if v, ok := b.memo[-t.ID]; ok {
 		return v.ok
